@@ -80,3 +80,22 @@ Proof.
   repeat constructor; cbn; try lia; try (left; reflexivity);
     right; (split; [first [left; reflexivity|right; reflexivity]|]); unfold in_s; cbn; lia.
 Qed.
+
+(* F03c (known finding), at the level of the model: a branch of the original body that targets the function's own
+   first byte is NOT refused -- checkJumpBetween only looks at the open interval (0, size) -- although after the patch
+   that byte is the jump to the mock. The shape is the synthetic function branch-to-own-entry of the harness
+   (cmp rax,3 ; jg +15 ; add rax,4 ; add rax,0 ; nop ; jmp entry ; ...): never_reenters is refuted by it. *)
+Example C03_never_reenters_refuted :
+  let I := Build_dins in
+  let is := [I [72; 131; 248; 3] 0 0 [] false false false;
+             I [127] 1 15 [] false false false;
+             I [72; 131; 192; 4] 0 0 [] false false false;
+             I [72; 131; 192; 0] 0 0 [] false false false;
+             I [144] 0 0 [] false false false;
+             I [235] 1 (-17) [] false false false;       (* at offset 15: jmp -> offset 0 *)
+             I [144] 0 0 [] false false false; I [144] 0 0 [] false false false;
+             I [144] 0 0 [] false false false; I [144] 0 0 [] false false false;
+             I [195] 0 0 [] false true false] in
+  (exists data, fix_relative_addr Gen.Addr.opExpand is 4198400 4202496 22 13 = FOk (data, 14)) /\
+  (-17) + 15 + 2 = 0.
+Proof. split; [eexists; vm_compute; reflexivity|reflexivity]. Qed.
